@@ -72,8 +72,8 @@ CaseLaws    == Unary =>
                  \A kind \in {"upper", "lower", "title"} :
                     CaseUnique(kind, s) =>
                       /\ CaseOK(kind, s, CaseImage(kind, s))
-                      /\ (CaseUnique("lower", CaseImage(kind, s)) /\ CaseUnique("lower", s))
-                           => CaseImage("lower", CaseImage(kind, s)) = CaseImage("lower", s)
+                      /\ CaseUnique(kind, CaseImage(kind, s))                        \* idempotent
+                           => CaseImage(kind, CaseImage(kind, s)) = CaseImage(kind, s)
 
 (* ---------------- generator (G) ---------------- *)
 Img(kind) == IF CaseUnique(kind, s) THEN <<CaseImage(kind, s)>> ELSE <<>>
